@@ -173,6 +173,7 @@ def run(plan, tier, replay_path=None):
     controls = [] if replay_path else plan.controls(traces)
     failures, done, _ = validate(plan, traces + controls)
 
+    deferred = []          # machinery complaints: raised below unless real executions already violate the property
     missed = []
     for k, c in enumerate(controls):
         want = c["meta"]["control"]
@@ -180,7 +181,7 @@ def run(plan, tier, replay_path=None):
         if not hit:
             missed.append(want)
     if missed:
-        raise MachineryError("negative controls not detected: %s" % missed)
+        deferred.append("negative controls not detected: %s" % missed)
 
     counts = {c: 0 for c in plan.clauses}
     for i in range(nreal):
@@ -189,7 +190,7 @@ def run(plan, tier, replay_path=None):
     if not replay_path:
         idle = [c for c, n in counts.items() if n == 0]
         if idle:
-            raise MachineryError("clauses never exercised on real executions: %s" % idle)
+            deferred.append("clauses never exercised on real executions: %s" % idle)
 
     mine = [f for f in failures if f[0] < nreal and f[2] in plan.clauses]
     others = sorted({f[2] for f in failures if f[0] < nreal and f[2] not in plan.clauses})
@@ -204,6 +205,12 @@ def run(plan, tier, replay_path=None):
     for sig, fs in known_hit.items():
         say("KNOWN-FINDING: property=%s %s (%s) -- %d occurrences, e.g. trace %d step %d" %
             (pid, kf_sigs[sig]["id"], kf_sigs[sig]["description"], len(fs), fs[0][0], fs[0][1]))
+    if deferred and not viol:
+        raise MachineryError("; ".join(deferred))
+    if deferred:
+        # controls and vacuity counts are derived from executions of the tree under test: when those already violate the
+        # property they are not a reliable yardstick -- the violations are the verdict
+        say("NOTE %s (not judged: the real executions violate the property)" % "; ".join(deferred)[:300])
     rc = EXIT_OK
     vpaths, seen = [], set()
     for f in viol:
